@@ -55,7 +55,7 @@ func Spec_IsInBounds(value float64, lower float64, upper float64) bool {
 }
 
 func Spec_IsProbability(value float64) bool {
-	return IsInBounds(value, 0, 1)
+	return Spec_IsInBounds(value, 0, 1)
 }
 
 func Spec_DecodeToStruct(src, target interface{}) {
@@ -70,7 +70,7 @@ func (r *ValueRange) Spec_Diff() float64 {
 }
 
 func (r *ValueRange) Spec_ScaleEqually(scale float64) *ValueRange {
-	dif := r.Diff() / 2
+	dif := r.Spec_Diff() / 2
 	return &ValueRange{
 		Min: r.Min + dif - dif*scale,
 		Max: r.Max - dif + dif*scale,
@@ -90,7 +90,7 @@ func Spec_RandomGenerator(seed int64) *rand.Rand {
 }
 
 func Spec_RandomBasedSeedValueGenerator(seed int64) ValueGenerator {
-	gen := RandomGenerator(seed)
+	gen := Spec_RandomGenerator(seed)
 	return func() float64 {
 		return gen.Float64()
 	}
